@@ -281,6 +281,7 @@ func corpusTS() []*modSpec {
 		mk("ts-generics", "package models\n\ntype IdUser int64\ntype IdGroup int64\n\ntype Holder struct {\n\tU Opt[IdUser]\n\tG Opt[IdGroup]\n\tN Opt[int]\n\tP Pair[string, IdUser]\n\tQ Pair[IdUser, string]\n\tL []Opt[IdGroup]\n}\n",
 			modFile{"generic.go", "package models\n\ntype Opt[T any] struct {\n\tValid bool\n\tV T\n}\n\ntype Pair[A any, B any] struct {\n\tFirst A\n\tSecond B\n}\n"}),
 		mk("ts-opaque-with-json-name", "package models\n\ntype Payload struct{ A int }\n\ntype Event struct {\n\tID int `json:\"id\"`\n\tMeta Payload `json:\"meta_data\" gomacro-opaque:\"typescript\"`\n\tRaw Payload `gomacro-opaque:\"typescript\"`\n\tBoth Payload `json:\"both,omitempty\" gomacro-opaque:\"dart, typescript\"`\n\tComment string\n}\n"),
+		mk("ts-enum-with-unexported-members", "package models\n\ntype Level int\n\nconst (\n\tLow Level = iota\n\tHigh\n\tinternal\n\tTop\n)\n\ntype Mode string\n\nconst (\n\tOn Mode = \"on\"\n\toff Mode = \"off\"\n)\n\ntype S struct {\n\tName string\n\tLevel Level\n\tModes []Mode\n}\n"),
 		mk("ts-empty-tag-names", "package models\n\ntype Inner struct{ A int }\n\ntype S struct {\n\tNested Inner `json:\",omitempty\"`\n\tPair [2]int `json:\",omitempty\"`\n\tEmpty Inner `json:\"\"`\n\tPlain string\n}\n"),
 		withClass(mk("ts-string-option", "package models\n\ntype S struct {\n\tN int `json:\",string\"`\n\tB bool `json:\"b,string\"`\n\tPlain string\n}\n"), "json-string-option"),
 		withClass(mk("ts-gomacro-ignored-on-the-wire", "package models\n\ntype Account struct {\n\tID int\n\tLogin string `json:\"login\"`\n\tCache []int `gomacro:\"ignore\"`\n\tNotes map[string]string `json:\"notes\" gomacro:\"ignore\"`\n}\n"), "gomacro-ignored-field-on-the-wire"),
